@@ -56,6 +56,7 @@ def check(run):
     bases = base_components(binp, BASES, idna_via)
     n = 18000 if run.tier == "quick" else 120000
     cases = []
+    wrapped = set()
     ncons = n // 4
     for _ in range(ncons):
         cs, lit = patcons.gen(rng)
@@ -67,12 +68,17 @@ def check(run):
             comps = ["protocol", "port"] + comps[:1] if rng.random() < 0.5 else ["protocol", "pathname"]
             comps = list(dict.fromkeys(comps))
         lit = {c: patlib.gen_literal(rng, c) for c in comps}
-        if "protocol" in lit and lit["protocol"].endswith(":"):
-            lit["protocol"] = lit["protocol"][:-1] + "x"
         if "protocol" in lit and "port" in lit and rng.random() < 0.5:
             lit["protocol"] = rng.choice(list(patlib.SPECIALS))
             if rng.random() < 0.6:
                 lit["port"] = rng.choice(["80", "443", "21", "080", "0443", "8080", "80 ", "443\t"])
+        if "protocol" in lit and lit["protocol"].endswith(":"):
+            # "process protocol for init" strips a trailing ':' from the pattern string; inside a group the literal reaches the
+            # callback as it is (known_findings fixed C15 2b2e89c: the callback used to strip it again)
+            if rng.random() < 0.6:
+                wrapped.add(len(cases))
+            else:
+                lit["protocol"] = lit["protocol"][:-1] + "x"
         base = rng.choice(BASES) if rng.random() < 0.25 else None
         cases.append((lit, base, None))
 
@@ -106,11 +112,13 @@ def check(run):
         canon[i]["pathname"] = o
 
     lines = []
-    for lit, base, cs in cases:
+    for ci, (lit, base, cs) in enumerate(cases):
         if cs is not None:
             lines.append(f"pattern 0 ! s {hx(cs.encode())}")
             continue
         d = {c: patlib.esc_pattern(v) for c, v in lit.items()}
+        if ci in wrapped:
+            d["protocol"] = "{" + d["protocol"] + "}"
         if base is not None:
             d["baseURL"] = base
         lines.append(f"pattern 0 ! i {patlib.enc_init(d)}")
